@@ -1,5 +1,6 @@
 pub mod asyncio;
 pub mod keys;
+pub mod limits;
 pub mod probe;
 pub mod regs;
 pub mod sigs;
@@ -11,7 +12,7 @@ use crate::explore::Report;
 use crate::Args;
 
 pub fn names() -> Vec<&'static str> {
-    vec!["keys", "reuse", "modes", "batch", "removal", "disable", "reentrancy", "epoll", "exec-seq", "postaction", "lifecycle", "faults", "idle", "signals", "transient", "crash-probe", "async-io", "pa-table", "timers", "wait", "ping-seq", "chan-seq", "ping-mt", "chan-mt", "sync-mt", "exec-mt", "wakeup", "run", "block_on"]
+    vec!["keys", "reuse", "modes", "batch", "removal", "disable", "stream-seq", "limit", "manyready", "wait-real", "reentrancy", "epoll", "exec-seq", "postaction", "lifecycle", "faults", "idle", "signals", "transient", "crash-probe", "async-io", "pa-table", "timers", "wait", "ping-seq", "chan-seq", "ping-mt", "chan-mt", "sync-mt", "exec-mt", "wakeup", "run", "block_on"]
 }
 
 pub fn dispatch(args: &Args) -> Option<Report> {
@@ -21,6 +22,9 @@ pub fn dispatch(args: &Args) -> Option<Report> {
         "crash-probe" => Some(probe::run()),
         "transient" => transient::run(args),
         "signals" => sigs::run(args),
+        "limit" => Some(limits::limit()),
+        "manyready" => Some(limits::manyready()),
+        "wait-real" => Some(limits::wait_real()),
         "pa-table" => Some(regs::pa_table()),
         d if regs::cfg_for(d, &args.tier).is_some() => regs::run(args),
         d if threads::is_driver(d) => threads::run(args),
